@@ -104,6 +104,80 @@ def xcorrFill (var : Variant) (data : List (List K)) : List (List (List K)) :=
       | .current => u
       | .intended => u.reverse.map conj
 
+/-! ### `utils.fftconvolve` as the code does it
+
+`fsize = 2 ** int(np.ceil(np.log2(size)))`, `IN1 = fft(in1, fsize)`, `IN1 *= fft(in2, fsize)`,
+`ret = ifft(IN1)[:size]`, `ret.real` unless one of the inputs is complex, then the mode slice.
+`fftpack.fft / ifft` are modelled by their documented semantics, the naive O(L²) DFT with the
+twiddle table `tw m = e^{-2πi m/L}` (`fft(x, L)` zero-pads / cuts `x` to `L` samples). -/
+
+/-- the smallest power of two `≥ size` -/
+def fftSize (size : Nat) : Nat := if size ≤ 1 then 1 else 2 ^ (Nat.log2 (size - 1) + 1)
+
+/-- `x` zero-padded (or cut) to `L` samples -/
+def padTo (L : Nat) (x : List K) : List K := tabulate L (nth x)
+
+/-- `fftpack.fft(x, L)`: `X_k = Σ_{j<L} x_j·tw((j·k) mod L)` -/
+def dftL (tw : Nat → K) (L : Nat) (x : List K) : List K :=
+  let xp := padTo L x
+  tabulate L fun k => sumRange L fun j => mul (nth xp j) (tw ((j * k) % L))
+
+/-- `fftpack.ifft(X)` for `len(X) = L`: `x_j = (1/L)·Σ_{k<L} X_k·conj(tw((j·k) mod L))` -/
+def idftL (tw : Nat → K) (L : Nat) (X : List K) : List K :=
+  tabulate L fun j => div (sumRange L fun k => mul (nth X k) (conj (tw ((j * k) % L)))) (ofNat L)
+
+/-- `z.real` (as an element of `K`): `(z + conj z) / 2` -/
+def realPart (z : K) : K := div (add z (conj z)) (ofNat 2)
+
+/-- `fftconvolve(a, b, mode='full')` on 1-d arrays with FFT length `L` and twiddle table `tw` -/
+def fftconvolveL (tw : Nat → K) (L : Nat) (complexResult : Bool) (a b : List K) : List K :=
+  let size := a.length + b.length - 1
+  let in1 := dftL tw L a
+  let in2 := dftL tw L b
+  let prod := tabulate L fun k => mul (nth in1 k) (nth in2 k)
+  let ret := (idftL tw L prod).take size
+  if complexResult then ret else ret.map realPart
+
+/-- `fftconvolve(a, b, mode='full')`: the FFT length is the power of two chosen by the code;
+`tw L` is the twiddle table for length `L` -/
+def fftconvolve (tw : Nat → Nat → K) (complexResult : Bool) (a b : List K) : List K :=
+  let L := fftSize (a.length + b.length - 1)
+  fftconvolveL (tw L) L complexResult a b
+
+/-- `signaltools._centered(arr, newsize)` -/
+def centered (arr : List K) (newsize : Nat) : List K :=
+  (arr.drop ((arr.length - newsize) / 2)).take newsize
+
+/-- the `mode` argument: 0 = full, 1 = same, 2 = valid -/
+def applyMode (mode : Nat) (la lb : Nat) (ret : List K) : List K :=
+  match mode with
+  | 0 => ret
+  | 1 => centered ret (if la > lb then la else lb)
+  | _ => centered ret ((if la ≥ lb then la - lb else lb - la) + 1)
+
+def fftconvolveMode (tw : Nat → Nat → K) (complexResult : Bool) (mode : Nat) (a b : List K) : List K :=
+  applyMode mode a.length b.length (fftconvolve tw complexResult a b)
+
+/-- the same slices of the direct linear convolution -/
+def convMode (mode : Nat) (a b : List K) : List K := applyMode mode a.length b.length (convFull a b)
+
+/-- `crosscov` on one lane THROUGH `fftconvolve` (the code's path); `crosscovCore` is the same text
+with the direct linear convolution in place of the FFT -/
+def crosscovFftCore (tw : Nat → Nat → K) (complexResult : Bool) (x y : List K)
+    (allLags debias normalize : Bool) : List K :=
+  let x' := if debias then removeBias x else x
+  let y' := if debias then removeBias y else y
+  let c := fftconvolve tw complexResult x' (y'.reverse.map conj)
+  let N := x.length
+  let c := if normalize then c.map (fun v => div v (ofNat N)) else c
+  if allLags then c else (c.drop (N - 1)).take N
+
+/-- `autocov` through the FFT path -/
+def autocovFft1 (tw : Nat → Nat → K) (complexResult : Bool) (x : List K)
+    (allLags debias normalize : Bool) : List K :=
+  let x' := if debias then removeBias x else x
+  crosscovFftCore tw complexResult x' x' allLags false normalize
+
 end corr
 
 section real
@@ -119,11 +193,13 @@ def zscore1 (x : List K) : List K :=
   let s := RScalar.sqrt (variance x)
   (removeBias x).map fun v => div v s
 
-/-- `seed_corrcoef(seed, target_row)` -/
+/-- `seed_corrcoef(seed, target_row)`: `xy / (sqrt(xx)·sqrt(yy))` — the two roots are taken separately
+(the product `xx·yy` of two sums of squares leaves the range of the dtype for data that are
+themselves far inside it; proposed_fixes/C20-pearson-denominator-scale.diff) -/
 def seedCorrcoef1 (seed target : List K) : K :=
   let x := removeBias target
   let y := removeBias seed
-  div (dot x y) (RScalar.sqrt (mul (dot x x) (dot y y)))
+  div (dot x y) (mul (RScalar.sqrt (dot x x)) (RScalar.sqrt (dot y y)))
 
 def seedCorrcoef (seed : List K) (targets : List (List K)) : List K :=
   targets.map (seedCorrcoef1 seed)
@@ -274,7 +350,7 @@ def correlationSpectrumFull (cosT sinT : Nat → K) (x1 x2 : List K) (norm : Boo
   let b := removeBias x2
   let re (x : List K) (k : Nat) : K := sumRange n fun t => mul (nth x t) (cosT ((k * t) % n))
   let im (x : List K) (k : Nat) : K := sumRange n fun t => sub zero (mul (nth x t) (sinT ((k * t) % n)))
-  let d := RScalar.sqrt (mul (dot a a) (dot b b))
+  let d := mul (RScalar.sqrt (dot a a)) (RScalar.sqrt (dot b b))
   let ccn := tabulate n fun k =>
     div (add (mul (re a k) (re b k)) (mul (im a k) (im b k))) (mul d (ofNat n))
   if norm then
@@ -341,8 +417,66 @@ def handleCov (fn kind : String) (axis : Int) (al db nm : Bool) (shape : List Na
   | "c" => run parseCList? showCList
   | _ => "bad-op"
 
+/-- the twiddle table of the driver's FFT path: `tw L m = e^{-2πi m/L}` -/
+def twCF (L m : Nat) : CF :=
+  let t := 2.0 * pi * m.toFloat / L.toFloat
+  ⟨Float.cos t, -(Float.sin t)⟩
+
+def ofRe (x : Float) : CF := ⟨x, 0.0⟩
+
+/-- `fftconv kind mode a b`: the model's `fftconvolve` (real data run through the complex DFT, then
+`.real`, as in the code) and, after ` ; `, the same slice of the direct linear convolution -/
+def handleFftconv (kind : String) (mode : Nat) (as bs : String) : String :=
+  match kind with
+  | "r" => match parseFloatList? as, parseFloatList? bs with
+    | some a, some b =>
+      let f := fftconvolveMode twCF false mode (a.map ofRe) (b.map ofRe)
+      s!"ok {showFloatList (f.map (·.re))} ; {showFloatList (convMode mode a b)}"
+    | _, _ => "bad-op"
+  | "c" => match parseCList? as, parseCList? bs with
+    | some a, some b =>
+      s!"ok {showCList (fftconvolveMode twCF true mode a b)} ; {showCList (convMode mode a b)}"
+    | _, _ => "bad-op"
+  | _ => "bad-op"
+
+/-- `covfft fn kind al db nm x [y]` on one lane: the FFT path of the covariance family and, after
+` ; `, the direct path (`crosscovCore` / `autocov1`) -/
+def handleCovFft (fn kind : String) (al db nm : Bool) (xs : String) (ys : Option String) : String :=
+  match kind with
+  | "r" => match parseFloatList? xs, ys.map parseFloatList? with
+    | some x, none =>
+      let db' := if fn = "autocorr" then false else db
+      if fn = "autocov" ∨ fn = "autocorr" then
+        s!"ok {showFloatList ((autocovFft1 twCF false (x.map ofRe) al db' nm).map (·.re))} ; {showFloatList (autocov1 x al db' nm)}"
+      else "bad-op"
+    | some x, some (some y) =>
+      let db' := if fn = "crosscorr" then false else db
+      if (fn = "crosscov" ∨ fn = "crosscorr") ∧ x.length = y.length then
+        s!"ok {showFloatList ((crosscovFftCore twCF false (x.map ofRe) (y.map ofRe) al db' nm).map (·.re))} ; {showFloatList (crosscovCore x y al db' nm)}"
+      else "bad-op"
+    | _, _ => "bad-op"
+  | "c" => match parseCList? xs, ys.map parseCList? with
+    | some x, none =>
+      let db' := if fn = "autocorr" then false else db
+      if fn = "autocov" ∨ fn = "autocorr" then
+        s!"ok {showCList (autocovFft1 twCF true x al db' nm)} ; {showCList (autocov1 x al db' nm)}"
+      else "bad-op"
+    | some x, some (some y) =>
+      let db' := if fn = "crosscorr" then false else db
+      if (fn = "crosscov" ∨ fn = "crosscorr") ∧ x.length = y.length then
+        s!"ok {showCList (crosscovFftCore twCF true x y al db' nm)} ; {showCList (crosscovCore x y al db' nm)}"
+      else "bad-op"
+    | _, _ => "bad-op"
+  | _ => "bad-op"
+
 def handle (args : List String) : String :=
   match args with
+  | ["fftconv", kind, mode, as, bs] =>
+    match mode.toNat? with
+    | some m => handleFftconv kind m as bs
+    | none => "bad-op"
+  | ["covfft", fn, kind, al, db, nm, xs] => handleCovFft fn kind (b? al) (b? db) (b? nm) xs none
+  | ["covfft", fn, kind, al, db, nm, xs, ys] => handleCovFft fn kind (b? al) (b? db) (b? nm) xs (some ys)
   | [fn, kind, axis, al, db, nm, shape, xs] =>
     match axis.toInt?, parseNatList? shape with
     | some ax, some sh => handleCov fn kind ax (b? al) (b? db) (b? nm) sh xs none
